@@ -41,6 +41,10 @@ CHECKS = {
    text="TLC enumerates programs with un-initialised variables from spec/Gen.tla; spec/DefInit.tla decides on the recipe whether a syntactic path reaches a load of a routine-local variable that was never stored; spec/Compile.tla judges the real compiler's outcome (must be a PyTeal error whose cause is a load of such a variable). Every recipe up to the node budget, one direction only.",
    note="trusts the recipe->constructor glue; 'syntactic path' = every branch both ways, loops zero or more times",
    tech="TLA+ model (DefInit) of definite initialisation evaluated by TLC on Builder-generated programs; real compile outcomes validated against it"),
+ "C19": dict(cat="model_checking", ref="5 C19",
+   text="TLC enumerates the type universe of spec/ARC4Gen.tla (basic types, arrays, tuples, named tuples, all equivalent spellings, reference and transaction kinds, nested shapes); for every ordered pair the real assignability relation is evaluated and a subroutine call passing an a-typed value to a b-typed parameter of a reused subroutine object is built; TLC (spec/Assign.tla) requires assignable(a,b) => Layout(a) = Layout(b) with the layout normal form of spec/ARC4.tla, and that no call with differently laid-out types was accepted. Exhaustive over the universe (7,921 pairs), sampled beyond in the thorough tier.",
+   note="one direction only (a stricter implementation is not an alarm); Layout() is my reading of ARC-4",
+   tech="TLA+ model of ARC-4 layouts (TLC) judging the real assignability relation over all ordered type pairs"),
  "C20": dict(cat="model_checking", ref="5 C20",
    text="Every finished behaviour of spec/Gen.tla (well typed by construction; control, effect, loop, degenerate and un-initialised alphabets) plus long/deep size-parametrised programs is compiled by PyTeal for versions 2..10 x both modes x option settings; TLC (spec/Compile.tla) judges each outcome class: never a foreign exception, and TEAL whenever spec/Accepts.tla predicts acceptance.",
    note="Accepts.tla's version/mode table is conservative (unknown constructs are never predicted accepted)",
